@@ -2,6 +2,7 @@
 extensions.  Prints `@ <index>` before each case so that the parent knows which case a
 sanitizer report (which terminates the process) belongs to."""
 import json
+import signal
 import sys
 
 root, verif, cases_file, start = sys.argv[1], sys.argv[2], sys.argv[3], int(sys.argv[4])
@@ -14,6 +15,7 @@ from harness.impl_chelpers import CHelpersImpl  # noqa: E402
 
 cases = json.load(open(cases_file))
 for i in range(start, len(cases)):
+    signal.alarm(20)      # watchdog: a hanging case (corrupted heap dead-locking malloc) kills this child
     if skip_ops and any(line.split()[0] in skip_ops for line in cases[i][1:]):
         continue
     print(f"@ {i}", flush=True)
